@@ -177,6 +177,23 @@ def gen_cases(rng, tier):
         cases.append({"kind": "tmpl", "ext": ext, "pre": [], "writes": writes,
                       "tsfmt": {"zone": rt.choice(["Asia/Tokyo", "America/New_York", "Pacific/Kiritimati", "UTC"]),
                                 "gens": gens}})
+    # ---- the writer closed in the middle of its life and used again: a later write may be refused, it may not cost a
+    # record that was written before (nor a file that existed before)
+    rc = rng.fork("tmplclose")
+    for _ in range({"quick": 12, "thorough": 300, "search": 20}[tier]):
+        ext = rc.choice(exts)
+        keys = rc.sample(["A", "B", "C"], rc.randint(1, 2))
+        t = 1704067200
+        writes = []
+        for _ in range(rc.choice([2, 3, 4, 6])):
+            t += rc.choice([0, 0, 1, 61])
+            writes.append([rc.choice(keys), t])
+            if rc.chance(35):
+                writes.append(["close"])
+        if not any(w == ["close"] for w in writes[:-1]):
+            writes.insert(1, ["close"])
+        pre = [[kk + ext, rc.randint(0, 2)] for kk in keys if rc.chance(40)]
+        cases.append({"kind": "tmpl", "ext": ext, "pre": pre, "writes": writes})
     # the witness shape of DESIGN finding #15 in every extension
     for ext in exts:
         cases.append({"kind": "tmpl", "ext": ext, "pre": [["A" + ext, 2]],
@@ -550,7 +567,15 @@ def _run_tmpl(case, child=False):
                                                 + case["ext"]))
         outcomes = []
         try:
-            for i, (key, sec) in enumerate(case["writes"]):
+            for i, wr_ in enumerate(case["writes"]):
+                if wr_ == ["close"]:
+                    try:
+                        w.close()
+                        outcomes.append("closed")
+                    except Exception as e:          # noqa: BLE001
+                        outcomes.append("close-raised:" + type(e).__name__)
+                    continue
+                key, sec = wr_
                 clock["t"] = sec
                 try:
                     gen = G if "tsfmt" not in case else ["dt", case["tsfmt"]["gens"][i][0],
@@ -560,7 +585,11 @@ def _run_tmpl(case, child=False):
                 except Exception as e:
                     outcomes.append("raised:" + type(e).__name__ + ":" + str(e)[:80])
         finally:
-            w.close()
+            try:
+                w.close()
+            except Exception:           # noqa: BLE001
+                if not any(x == ["close"] for x in case["writes"]):
+                    raise
             frs.datetime = real
         files = []
         for nm in sorted(os.listdir(d)):
@@ -688,7 +717,56 @@ def _oracle_split(case, obs):
     return None
 
 
+def _oracle_tmpl_close(case, obs):
+    """histories with close() in the middle: a write after it may be refused; nothing written before may be lost"""
+    outs = obs["outcomes"]
+    after_close = False
+    ok = []
+    for i, (wr_, o) in enumerate(zip(case["writes"], outs)):
+        if wr_ == ["close"]:
+            if o != "closed":
+                return f"close() in the middle of the history raised ({o})"
+            after_close = True
+        elif o == "ok":
+            ok.append(i)
+        elif not after_close:
+            return f"template writer raised before it was ever closed: {o}"
+    contents = {nm: c for nm, c in obs["files"]}
+    for nm, c in obs["files"]:
+        if isinstance(c, dict) and c.get("error"):
+            return f"file {nm} is not readable: {c['error']} {c.get('msg', '')}"
+    pool = [c for c in contents.values()]
+    for nm, ns in obs["pre"]:
+        want = [["pre", n] for n in ns]
+        if want not in pool:
+            return f"the content of the pre-existing file {nm} ({ns}) is no longer on disk unchanged"
+        pool.remove(want)
+    seen = []
+    for nm, c in obs["files"]:
+        keys = {k for k, _ in c if k != "pre"}
+        if len(keys) > 1:
+            return f"file {nm} mixes records of template paths {sorted(keys)}"
+        if keys and any(k == "pre" for k, _ in c):
+            return f"file {nm} holds pre-existing content and new records (appended to / merged)"
+        ns = [n for k, n in c if k != "pre"]
+        if ns != sorted(ns):
+            return f"file {nm}: records out of order {ns}"
+        for k, n in c:
+            if k != "pre" and (not (0 <= n < len(case["writes"])) or case["writes"][n] == ["close"] or case["writes"][n][0] != k):
+                return f"file {nm} holds a record (key {k!r}, n {n}) that was never written"
+        seen += ns
+    if len(seen) != len(set(seen)):
+        return f"a record is on disk twice: {sorted(seen)}"
+    lost = [i for i in ok if i not in seen]
+    if lost:
+        return (f"records #{lost} were written (write() returned) but are not on disk after the writer was closed and used "
+                f"again: on disk {sorted(seen)}, outcomes {outs}")
+    return None
+
+
 def _oracle_tmpl(case, obs):
+    if any(w_ == ["close"] for w_ in case["writes"]):
+        return _oracle_tmpl_close(case, obs)
     case, obs, bad = _tm_view(case, obs)
     if bad:
         return bad
@@ -779,6 +857,8 @@ def model_op(case, obs):
         return {"op": "c17.split", "adapter": case["adapter"], "limit": case["limit"],
                 "hist": "w" * case["n"] + case["closing"], "base": case["target"], "suffixLen": case["suffix"]}
     if k == "tmpl":
+        if any(w_ == ["close"] for w_ in case["writes"]):
+            return None           # close() in the middle of a template writer's life: real-code oracle only
         case, obs, _ = _tm_view(case, obs)
         return {"op": "c17.tmpl", "fs": [[nm, ns] for nm, ns in obs["pre"]],
                 "writes": [[key + case["ext"], _stamp(sec), i] for i, (key, sec) in enumerate(case["writes"])]}
@@ -870,7 +950,8 @@ def classify(case, obs):
     if k == "split":
         return [f"split:{case['target']}", f"split:parts={min(len(obs['parts']), 5)}", f"split:closing={case['closing']}"]
     if k == "tmpl":
-        return [f"tmpl:ext={case['ext'] or 'none'}" + (":ts-template" if "tsfmt" in case else ""), f"tmpl:pre={len(case['pre'])}",
+        return [f"tmpl:ext={case['ext'] or 'none'}" + (":ts-template" if "tsfmt" in case else "")
+                + (":close-in-the-middle" if any(w_ == ["close"] for w_ in case["writes"]) else ""), f"tmpl:pre={len(case['pre'])}",
                 f"tmpl:files={min(len(obs['files']), 8)}"]
     return "frames"
 
